@@ -14,6 +14,11 @@ __all__ = ['CutoutImage']
 
 def _overlap_slices(large_array_shape, small_array_shape, position,
                     mode='partial'):
+    # astropy compares the shape with a tuple, which is ambiguous for
+    # an array (e.g., a row of a "model_shape" table column)
+    if isinstance(small_array_shape, np.ndarray):
+        small_array_shape = tuple(small_array_shape.tolist())
+
     slc_lg, slc_sm = overlap_slices(large_array_shape, small_array_shape,
                                     position, mode=mode)
 
